@@ -359,6 +359,12 @@ def run_case(spec, j):
       A_ += b_ * np.outer(Av, Av)
     moved = float(np.abs(l_ - lam).sum() /
                   (np.linalg.norm(l_) + np.linalg.norm(lam)))
+    # (duals that are themselves rounding noise - bounds met with equality by
+    # the prior - move by 100 % of nothing: lambda_i xi_i is dimensionless,
+    # and a move below 1e-9 of it is not a move; thorough sweep, seed 1)
+    if float((np.abs(l_ - lam) * xi).max()) <= 1e-9:
+      moved = 0.0
+      j.count('at-rest.noise-level-duals')
     j.close('C11.converged-means-at-rest', moved, 0.0,
             10 * p['tol'] + 1e-9 * max(1.0, cond * 1e-6),
             dict(det, n_iter=n_iter, tol=p['tol'],
